@@ -364,7 +364,7 @@ type dcfg struct {
 	mode    ekit.Mode
 	outcome string // accept | refuse | never | immediate
 	timeout bool
-	then    string // after a successful dial: close | fin | none
+	then    string // after a successful dial: close | fin | none; for a pending one: stop
 	p       int
 }
 
@@ -429,9 +429,14 @@ func dialBody(c dcfg) func() {
 		for vtime.FireNext() {
 			vsched.WaitIdle()
 		}
+		if c.then == "stop" && calls == 0 {
+			// the engine is stopped while the connect is still pending
+			g.Stop()
+			vsched.WaitIdle()
+		}
 		var fails []string
 		expectSuccess := c.outcome == "accept" || c.outcome == "immediate"
-		owed := c.outcome != "never" || c.timeout
+		owed := c.outcome != "never" || c.timeout || c.then == "stop"
 		if calls == 0 && !owed {
 			// a connect that never completes and has no timeout owes no callback yet
 		} else if calls != 1 {
@@ -536,6 +541,9 @@ func build(tier string) []*vkit.Scenario {
 				thens := []string{"close"}
 				if oc == "accept" || oc == "immediate" {
 					thens = []string{"close", "fin", "none"}
+				}
+				if oc == "never" && !to {
+					thens = []string{"close", "stop"}
 				}
 				for _, th := range thens {
 					c := dcfg{mode: m, outcome: oc, timeout: to, then: th, p: 2}
